@@ -769,6 +769,7 @@ func (ro *RedisOutput) newBisyncTxnBatcher(conn client.Redis) (rediscommon.CmdBa
 	if batcher == nil {
 		return nil, fmt.Errorf("redis client does not support transaction batcher: %T", conn)
 	}
+	ro.noteBisyncUnitSent()
 	return batcher, nil
 }
 
@@ -1649,7 +1650,18 @@ func (ro *RedisOutput) markBisyncFrontierMiss(runID string) {
 	}
 	ro.bisyncMissGuard.Lock()
 	ro.bisyncMissRunID = runID
+	ro.bisyncUnitsSent.Store(false)
 	ro.bisyncMissGuard.Unlock()
+}
+
+// noteBisyncUnitSent : a unit is on its way to the target. Whether or not its reply arrives, the
+// target may hold its journal record from now on, so a cached miss says nothing any more.
+func (ro *RedisOutput) noteBisyncUnitSent() {
+	ro.bisyncUnitsSent.Store(true)
+}
+
+func (ro *RedisOutput) unitsSentSinceMiss() bool {
+	return ro.bisyncUnitsSent.Load()
 }
 
 func (ro *RedisOutput) clearBisyncFrontierMiss(runID string) {
@@ -1679,9 +1691,10 @@ func (ro *RedisOutput) bisyncFrontierMissFastPath(root StartPoint, runIDs []stri
 		return sp, seq, true
 	}
 
-	if seq > 0 {
-		// units were sent since the miss was cached : their journal records may be stored, the
-		// full path has to look at them (and to discard them if the numbering restarts)
+	if seq > 0 || ro.unitsSentSinceMiss() {
+		// units were sent since the miss was cached (acknowledged or not) : their journal records
+		// may be stored, the full path has to look at them (and to discard them if the numbering
+		// restarts)
 		return StartPoint{}, 0, false
 	}
 	ro.logger.Infof("bisync startpoint parallel fast-path fallback: checkpoint(%s), start(%+v), reason(cached-miss)", ro.bisyncCheckpointName(), root)
